@@ -276,7 +276,7 @@ func cmdRun(args []string) int {
 		if params == nil {
 			params = map[string]int{}
 		}
-		r := &harnessRun{h: h, params: params, queue: []string{""}}
+		r := &harnessRun{h: h, params: params, queue: []string{""}, cross: tier == "thorough" && os.Getenv("VERIF_NO_CROSS") == ""}
 		byPkg[h.Pkg] = append(byPkg[h.Pkg], r)
 		all = append(all, r)
 	}
@@ -468,7 +468,7 @@ func cmdRun(args []string) int {
 			"harness": r.h.Name, "function": r.h.Pkg + "." + r.h.Fn, "params": r.params, "bound": r.h.Bound, "outside_claim": r.h.Outside,
 			"paths": r.paths, "paths_ended_by_assumption": r.aborted, "ssa_steps": r.steps, "block_visits": r.blocks,
 			"solver_decided_branches": r.decisions, "assertions_discharged": r.checks, "queries": r.queries,
-			"sat": r.sat, "unsat": r.unsat, "unknown": r.unknown, "solver_s": float64(r.solverMs) / 1000, "max_query_ms": r.maxQueryMs, "feasibility_answers_from_kept_model": r.modelHits, "second_solver_fallbacks": r.fallbacks, "paths_that_modified_package_state": r.reinits,
+			"sat": r.sat, "unsat": r.unsat, "unknown": r.unknown, "solver_s": float64(r.solverMs) / 1000, "max_query_ms": r.maxQueryMs, "feasibility_answers_from_kept_model": r.modelHits, "second_solver_fallbacks": r.fallbacks, "unsat_verdicts_cross_checked_with_second_solver": r.crossChecked, "paths_that_modified_package_state": r.reinits,
 			"reached": r.reached, "redirects": r.h.Redirects, "map_order_site": r.h.MapOrder, "wall_s": r.wall.Seconds(),
 		})
 		if len(sampleOut) < 4 {
